@@ -18,7 +18,7 @@ using evh::emit;
 
 struct Op { char k; int a; };   // 'w' wait, 's' set, 'r' reset, 'y' ready, 'd' drain, 'x' stop
 using Prog = std::vector<Op>;
-struct Scenario { int id; std::string impl; int init; Prog prog[4]; int sched[5]; };
+struct Scenario { int id; std::string impl; int init; Prog prog[4]; int sched[5]; bool fine = false; };
 
 static Prog parseProg(const json& j) {
   Prog p;
@@ -144,7 +144,10 @@ static void runOne(const Scenario& sc, bool cancellable, long x, long k, Stats& 
   auto w = std::make_unique<World<Evt>>(&sc);
   vrt::RunResult rr;
   {
+    // fine-grained family: the schedule points inside source/atomic_intrusive_list.cpp (sites of the mutex engine) are
+    // accepted too, so set() / start() / stop() interleave INSIDE the latchable list's link-lock protocol
     vrt::Ctl c; c.accept = {"event.", "spin_wait"};
+    if (sc.fine) c.accept.push_back("mutex.l.");
     for (int t = 1; t <= 3; ++t) c.spawn(t, [&, t] { w->run(w->scn->prog[t]); });
     c.start_all();
     rr = drive(c);
@@ -182,7 +185,7 @@ int main(int argc, char** argv) {
   std::string mode = a.str("mode", "guided");
   std::vector<Scenario> scns;
   { std::ifstream f(a.str("scenarios")); json j; f >> j;
-    for (auto& s : j) { Scenario sc; sc.id = s["id"].get<int>(); sc.impl = s["impl"].get<std::string>(); sc.init = s["init"].get<int>();
+    for (auto& s : j) { Scenario sc; sc.id = s["id"].get<int>(); sc.impl = s["impl"].get<std::string>(); sc.init = s["init"].get<int>(); sc.fine = s.value("fine", 0) != 0;
       for (int t = 1; t <= 3; ++t) sc.prog[t] = parseProg(s["prog"][t - 1]);
       for (int i = 1; i <= 4; ++i) sc.sched[i] = i <= (int)s["sched"].size() ? s["sched"][i - 1].get<int>() : 1;
       scns.push_back(sc); } }
